@@ -72,6 +72,7 @@ PROOFS += [
     Proof('linear/variable_pio', 'xfile.c', 'h_var_pio', kind='L', min_obligations=20, timeout=900, backend='cadical'),
 ]
 NATIVES = []
+AUX_VIOLATION = True    # no native oracle: a failing loop-rule obligation is reported (no-failing-input-found), see DESIGN §4
 TRUSTED = ['cbmc 6.11.0', 'lowering rules of specs/C16/spec.py and specs/C15/spec.py']
 NOT_DECIDED = []
 ASSUMPTIONS = []
